@@ -815,7 +815,7 @@ func c9Check(p *C09Params, r *vsched.Result) (string, any) {
 				}
 				for _, rr := range m.Answer {
 					if !c9RRAnswers(rr, want) {
-						return fmt.Sprintf("reply to %s contains an answer generated for %s (%s)", who, c9RRFor(rr), rr.String()), detail
+						return fmt.Sprintf("reply to %s contains an answer generated for %s", who, c9RRFor(rr)), detail
 					}
 				}
 			}
@@ -833,7 +833,7 @@ func c9Check(p *C09Params, r *vsched.Result) (string, any) {
 		}
 		for _, rr := range s.answers {
 			if !c9RRAnswers(rr, owner) {
-				return fmt.Sprintf("cache entry %q (%s) holds an answer generated for %s (%s)", s.key, owner, c9RRFor(rr), rr.String()), detail
+				return fmt.Sprintf("cache entry %q (%s) holds an answer generated for %s", s.key, owner, c9RRFor(rr)), detail
 			}
 		}
 		if s.packed != nil {
